@@ -111,7 +111,11 @@ pub(crate) fn encode_internal<W: Write, S: Borrow<Schema>>(
         | Value::LocalTimestampMicros(i)
         | Value::LocalTimestampNanos(i)
         | Value::TimeMicros(i) => encode_long(*i, writer),
-        Value::Float(x) => write_all_bytes(&mut *writer, &x.to_le_bytes()),
+        Value::Float(x) => match schema {
+            // A float is a valid value for a double schema: write it widened, as the schema says
+            Schema::Double => write_all_bytes(&mut *writer, &f64::from(*x).to_le_bytes()),
+            _ => write_all_bytes(&mut *writer, &x.to_le_bytes()),
+        },
         Value::Double(x) => write_all_bytes(&mut *writer, &x.to_le_bytes()),
         Value::Decimal(decimal) => match schema {
             Schema::Decimal(DecimalSchema { inner, .. }) => match inner {
